@@ -14,6 +14,7 @@ mod c14;
 mod c13;
 mod fp;
 mod grp;
+mod pair;
 
 use mccore::{Bad, Meta, Run, Tier};
 use serde_json::Value;
@@ -75,6 +76,10 @@ type ReplayFn = fn(&Value) -> Result<(), Bad>;
 
 fn table(id: &str) -> Option<(RunFn, MetaFn)> {
     Some(match id {
+        "C01" => (pair::c01_run, pair::c01_meta),
+        "C02" => (pair::c02_run, pair::c02_meta),
+        "C03" => (pair::c03_run, pair::c03_meta),
+        "C11" => (pair::c11_run, pair::c11_meta),
         "C04" => (grp::c04_run, grp::c04_meta),
         "C05" => (grp::c05_run, grp::c05_meta),
         "C06" => (c06::run, c06::meta),
@@ -93,6 +98,7 @@ fn replay_table(op: &str) -> Option<ReplayFn> {
     let pre = op.split('.').next().unwrap_or("");
     Some(match pre {
         "c04" | "c05" | "c10" | "c15" => grp::replay,
+        "c01" | "c02" | "c03" | "c11" => pair::replay,
         "c06" => c06::replay,
         "c07" => c07::replay,
         "c08" | "c09" => c08::replay,
